@@ -108,7 +108,9 @@ func C19(c *Ctx) {
 			for j, ic := range inner {
 				it := c.O.Of(ic.V)
 				kk := sprintf("%s:x%d", k, j+1)
-				slash := func(t *core.Term) bool { return t.IsCallTo("strings.HasPrefix") && t.Args[0].Kind == "param" && t.Args[1].Is("const", `"/"`) }
+				slash := func(t *core.Term) bool {
+					return t.IsCallTo("strings.HasPrefix") && t.Args[0].Kind == "param" && t.Args[1].Is("const", `"/"`)
+				}
 				cond := ic.Cond
 				if cond == nil {
 					cond = cs.Cond
@@ -117,6 +119,14 @@ func C19(c *Ctx) {
 				if isSlash {
 					ok := it.Kind == "slice" && it.Args[0].Kind == "param" && it.Args[1].Is("const", "1") &&
 						it.Args[2].Kind == "binop" && it.Args[2].Name == "-" && it.Args[2].Args[0].IsCallTo("builtin:len") && it.Args[2].Args[1].Is("const", "1")
+					if !ok {
+						// TrimSuffix(TrimPrefix(p, "/"), "/") (either nesting) strips exactly the two delimiters when len(p) ≥ 2
+						trim := func(x *core.Term, a, b string) bool {
+							return x.IsCallTo("strings."+a) && x.Args[1].Is("const", `"/"`) && x.Args[0].IsCallTo("strings."+b) && x.Args[0].Args[1].Is("const", `"/"`) && x.Args[0].Args[0].Kind == "param"
+						}
+						long := cond.Implies(c.atLeast(func(x *core.Term) bool { return x.IsCallTo("builtin:len") && x.Args[0].Kind == "param" }, 2))
+						ok = (trim(it, "TrimSuffix", "TrimPrefix") || trim(it, "TrimPrefix", "TrimSuffix")) && long
+					}
 					suffix := cond.Implies(c.M(true, func(t *core.Term) bool { return t.IsCallTo("strings.HasSuffix") && t.Args[1].Is("const", `"/"`) }))
 					r.Check("C19-3", kk+":regexp-form", c.Pos(s.Pos()), ok && suffix, "a /…/ pattern (prefix and suffix `/`) must compile its inner text pattern[1:len-1], got "+it.String())
 				} else {
